@@ -343,8 +343,12 @@ class Driver(object):
             self.kernel.trace.append(('ans', req, res[1]))
         elif isinstance(res[1], list):
             out = []
+            lnames = [lc.name for lc in self.lcfgs]
             for d in res[1]:
-                idx = int(d['name'][1:])
+                if d['name'] in lnames:
+                    idx = len(self.pcfgs) + lnames.index(d['name'])
+                else:
+                    idx = int(d['name'][1:])
                 out.append((idx, d['status']))
             self.kernel.trace.append(('ansall', req, out))
         else:
@@ -420,7 +424,13 @@ class Driver(object):
             req, what = a[1], a[2]
             k.trace.append(('req', req, what, a[3] if len(a) > 3 else -1, a[4] if len(a) > 4 else -1))   # marker
             r = self.rpc
-            name = lambda i: ('g%d:p%d' % (self.script['procs'][i]['group'], i)) if i < len(self.pcfgs) else 'g0:nosuch'
+            def name(i):
+                if i < len(self.pcfgs):
+                    return 'g%d:p%d' % (self.script['procs'][i]['group'], i)
+                if i < len(self.pcfgs) + len(self.lcfgs):       # a listener process of a pool
+                    ln = self.lcfgs[i - len(self.pcfgs)].name
+                    return '%s:%s' % (ln.split('_')[0].replace('l', 'pool'), ln)
+                return 'g0:nosuch'
             gname = lambda g: ('g%d' % g) if g < len(self.script['groups']) else 'nosuchgroup'
             # namespec forms: a 6th element on start/stop gives a bare process name (no group part: BAD_NAME unless a group
             # of that name exists); on startgroup/stopgroup it routes the request through startProcess/stopProcess with
